@@ -195,7 +195,7 @@ class Expr:
                         return [(VVal(th.const(f'clsattr:{c.name}.{attr}'), kind=self.shape_of(f'{recv.name}.{attr}')), st)]
             return [(VBuiltin(f'{recv.name}.{attr}', recv=recv), st)]
         if isinstance(recv, VExc):
-            recv = VVal(recv.val)
+            recv = VVal(recv.val, kind='rec')
         if isinstance(recv, (VMapB, VSetB, VListB, VTuple)):
             return [(VBuiltin('builder.' + attr, recv=recv), st)]
         if isinstance(recv, VGen):
@@ -323,9 +323,11 @@ class Expr:
             if isinstance(op, ast.Add) and isinstance(a, VTuple) and isinstance(b, VTuple):
                 return [(VTuple(a.items + b.items, a.is_list), s)]
             if isinstance(op, ast.Sub) and self.is_setlike(a) and self.is_setlike(b):
-                return [(VSetB(self.set_lambda(lambda k: z3.And(self.set_has(a, k, s), z3.Not(self.set_has(b, k, s))))), s)]
+                return [(VSetB(z3.SetDifference(self.set_arr(a), self.set_arr(b))), s)]
             if isinstance(op, ast.BitOr) and self.is_setlike(a) and self.is_setlike(b):
-                return [(VSetB(self.set_lambda(lambda k: z3.Or(self.set_has(a, k, s), self.set_has(b, k, s)))), s)]
+                return [(VSetB(z3.SetUnion(self.set_arr(a), self.set_arr(b))), s)]
+            if isinstance(op, ast.BitAnd) and self.is_setlike(a) and self.is_setlike(b):
+                return [(VSetB(z3.SetIntersect(self.set_arr(a), self.set_arr(b))), s)]
             if isinstance(op, (ast.BitOr, ast.BitAnd)) and isinstance(a, VBool) and isinstance(b, VBool):
                 return [(VBool(z3.Or(a.b, b.b) if isinstance(op, ast.BitOr) else z3.And(a.b, b.b)), s)]
             # opaque deterministic binary operator on values (may raise for user types: not modelled -> total)
@@ -339,6 +341,9 @@ class Expr:
 
     def is_setlike(self, v):
         return isinstance(v, VSetB) or (isinstance(v, VVal) and v.kind == 'set')
+
+    def set_arr(self, sv):
+        return sv.has if isinstance(sv, VSetB) else self.th.s_hasA(sv.term)
 
     def set_has(self, sv, k, st):
         if isinstance(sv, VSetB):
